@@ -258,12 +258,12 @@ impl<R: Round> Context<R> {
             (0, x)
         } else {
             let mut x = if one_plus { x + FBig::ONE } else { x };
-            if B != 2 {
-                let magnitude = x.repr.exponent + x.repr.digits() as isize - 1;
-                if magnitude.unsigned_abs() > THRESHOLD_LARGE_EXP {
-                    t = magnitude;
-                    x.repr.exponent -= t; // now 1 <= x < B
-                }
+            let magnitude = x.repr.exponent + x.repr.digits() as isize - 1;
+            if magnitude.unsigned_abs() > THRESHOLD_LARGE_EXP {
+                // (in base 2 as well: the f32 estimate of log2(x) below is not exact when the
+                // exponent has more than 24 bits, and the series needs x_scaled < 2 to converge)
+                t = magnitude;
+                x.repr.exponent -= t; // now 1 <= x < B
             }
 
             let log2 = x.log2_bounds().0;
